@@ -41,7 +41,7 @@ RULE = ("periodic structures from findlib.planted_structure: 0-3 planted rigid c
         "lists; ghost copies that exist only under a re-oriented / transposed reading of the cell; tight cells (smallest width only 3-30 % "
         "above diameter + 2 atol), left-handed cells, hints as negative / numpy integers; 60-80 A cells with atol 2e-5 / 1e-4 and "
         "flat patterns with one inner atom 4-6 atol off the line / plane (invisible to the distance screen) far from the origin; "
-        "tolerances above the distance of two same-element pattern atoms with ONE atom at their midpoint; 35 % of the structures "
+        "tolerances above the distance of two same-element pattern atoms with ONE atom at their midpoint; 40 % of the structures list their atoms in a shuffled order; 35 % of the structures "
         "store atoms OUTSIDE the cell (each by its own lattice vector of up to 2 cells). "
         "Thorough adds the complete grid origin-fraction^3 x 4 poses x 11 patterns x 3 cell kinds. "
         "Non-trivial = the search reported at least one match of a pattern with >= 2 atoms AND (a planted copy straddles "
@@ -509,6 +509,8 @@ def grid_inp(seed, task):
     case = g.planted_at(rng, pname, ck, pose, fr, atol)
     if ck != "ortho" and rng.random() < 0.3:
         g.add_ghost(rng, case, atol)
+    if rng.random() < 0.4:
+        g.shuffle_atoms(rng, case)
     if rng.random() < 0.25:
         g.unwrap_atoms(rng, case)
     return inp_of(case, atol, g.valid_hints(rng, case["pattern"]) if rng.random() < 0.3 else (None, None, None),
@@ -572,6 +574,8 @@ def run(ctx, oracle_only=False, scale=1):
             case, atol, hints = g.far_case(rng)        # large cell, small tolerance, fragments far from the origin
         else:
             case, atol, hints = g.random_case(rng)
+        if rng.random() < 0.4:
+            g.shuffle_atoms(rng, case)                 # atoms of a copy neither contiguous nor in pattern order
         if not integer and atol > 0 and rng.random() < 0.35:
             g.unwrap_atoms(rng, case)                  # atoms stored up to two cells away from the home cell
         style = g.call_style(rng, atol, hints)
